@@ -18,11 +18,11 @@ fn gen_random(r: &mut SimRng, asset: usize, centre: u32, corner: bool) -> AgentS
 }
 
 /// Random agents whose (non-empty) tick range touches an end of the price domain: tick 0 (an ask drawn there is priced 0,
-/// which the book executes as a market order) or - `at_top`, for tick sizes dividing 2^32-1 - the tick priced 2^32-1.
+/// which the book executes as a market order) or - `at_top`, tick sizes > 1 - the highest tick of the grid (priced 2^32-1 where the tick size divides it, just below otherwise).
 fn gen_random_edge(r: &mut SimRng, asset: usize, tick: u32, at_top: bool) -> AgentSpec {
     let n = r.range(1, 8) as usize;
     let w = r.range(1, 5) as u32;
-    let (lo, hi) = if at_top && tick > 1 && u32::MAX % tick == 0 {
+    let (lo, hi) = if at_top && tick > 1 {
         let top = u32::MAX / tick;
         (top - w, top + 1)
     } else {
@@ -328,6 +328,15 @@ pub fn generate_c17(seed: u64) -> W4Scn {
         };
         off = (off + d).clamp(-400, 400);
         path.push((off, style != 4 && r.chance(0.3)));
+    }
+    // very rarely the same agent object first sees a long flat history (about 2^16 updates at one price, nothing to do)
+    // before the path starts to move: whatever an agent remembers or counts per update must survive that many updates
+    if r.chance(0.00004) {
+        let flat = 65_530 + r.below(12) as usize;
+        let first = path.first().copied().unwrap_or((0, false));
+        let mut long = vec![first; flat];
+        long.extend(path);
+        path = long;
     }
     cfg.path = path;
     cfg.quote_by_modify = r.chance(0.35);
